@@ -138,6 +138,8 @@ Constructs == <<
   [dir |-> "include", path |-> 3],
   [dir |-> "include", path |-> 4],
   [dir |-> "include", path |-> 1, cmt |-> Cmt(1, <<>>)],
+  [dir |-> "include", path |-> 10],
+  [dir |-> "include", path |-> 11, cmt |-> Cmt(0, <<1>>)],
   [dir |-> "P", date |-> D(2024, 1, 15), comm |-> 6, a |-> [Amt(18950, 2, 1) EXCEPT !.side = "L", !.sp = FALSE]],
   [dir |-> "P", date |-> D(2024, 1, 15), comm |-> 2, a |-> Amt(108, 2, 4)],
   [dir |-> "Y", y |-> 2024, word |-> "Y"],
